@@ -1,8 +1,9 @@
 (* C05 — All exact compilation backends and semirings agree.
    Only statements; every proof is `exact <lemma>`. *)
-From Coq Require Import List Bool Arith ZArith Reals.
+From Coq Require Import List Bool Arith ZArith Reals QArith String.
 From PL.C10 Require Import ModelCircuit SpecDDNNF ModelOracle ProofsWMC ProofsInstances.
-From PL.C05 Require Import ModelNSP Proofs ProofsLog.
+From PL.C12 Require Import ModelPy GenSemirings.
+From PL.C05 Require Import ModelNSP Proofs ProofsLog ProofsNSP ModelSym ProofsSymbolic.
 Import ListNotations.
 Local Open Scope nat_scope.
 
@@ -43,6 +44,89 @@ Theorem C05_nsp_checked : forall (S : sr_ops), sr_laws S -> forall (w : nat -> b
 Proof. exact nsp_checked. Qed.
 Print Assumptions C05_nsp_checked.
 
+(* NSP in general: on a decomposable and deterministic circuit that need NOT be smooth, the model of
+   FormulaEvaluatorNSP (pad every disjunct with (w v true + w v false) for the variables its siblings
+   use and it does not; pad the root the same way for every weighted variable in U it does not use)
+   returns the weighted model count over ALL of U: the sum, over all assignments bs to U, of
+   [C true under bs] * product of the literal weights -- in every commutative semiring.
+   C05_nsp_smooth is the special case in which nothing is padded. *)
+Theorem C05_nsp_general : forall (S : sr_ops), sr_laws S -> forall (w : nat -> bool -> S) U C,
+  NoDup U -> incl (tvars (root_tree C)) U -> decomposable C -> deterministic C ->
+  forall a, c_eval_nsp S w U C = wmc_sum S w U (fun a => c_evalb a C) a.
+Proof. exact c_nsp_general_sum. Qed.
+Print Assumptions C05_nsp_general.
+
+(* ... hence against a CNF: any decomposable, deterministic circuit over variables 1..n with the models
+   of f is evaluated by the NSP evaluator to the weighted model count of f (C05_nsp_checked without
+   the smoothness and coverage the C10 checker insists on). *)
+Theorem C05_nsp_general_cnf : forall (S : sr_ops), sr_laws S -> forall (w : nat -> bool -> S) n C f,
+  decomposable C -> deterministic C -> vars_in_range n C -> (forall a, c_evalb a C = sat a f) ->
+  c_eval_nsp S w (var_list n) C = wmc_cnf S w n f.
+Proof. exact nsp_general_cnf. Qed.
+Print Assumptions C05_nsp_general_cnf.
+
+(* SemiringSymbolic.  `sx` (ModelSym.v) are the expressions the class builds, `SymOps` its
+   zero/one/plus/times with the "0"/"1" shortcuts, `c_eval_l` the evaluator's own loop (fold from the
+   left starting at one()/zero()), `print` the string returned, `tokens` that string cut into tokens
+   (`print e = spell_all (tokens e)`), `readR` a one-pass precedence-respecting reader of token lists
+   (parentheses > left-associative * and / > left-associative + and -), `aval` the numeric value of
+   each atom string.  For EVERY circuit and every symbolic weighting w: reading the symbolic result
+   numerically gives exactly the probability-semiring evaluation with the numeric weights
+   (`denoteR` is the direct recursive meaning of an expression; both are given). *)
+Theorem C05_symbolic_evaluates : forall (aval : string -> R), aval "0"%string = 0%R -> aval "1"%string = 1%R ->
+  forall (w : nat -> bool -> sx) C,
+    let e := c_eval_l SymOps w C in
+    let p := c_eval ProbROps (fun v b => denoteR aval (w v b)) C in
+    denoteR aval e = p /\ readR aval (tokens e) = Some p /\ print e = spell_all (tokens e).
+Proof. exact symbolic_evaluates. Qed.
+Print Assumptions C05_symbolic_evaluates.
+
+(* the same for the right-fold evaluation `c_eval` used by every other theorem of C05/C10 (the strings
+   differ in the nesting of sums, the numbers read from them do not) *)
+Theorem C05_symbolic_evaluates_foldr : forall (aval : string -> R), aval "0"%string = 0%R -> aval "1"%string = 1%R ->
+  forall (w : nat -> bool -> sx) C,
+    let e := c_eval SymOps w C in
+    let p := c_eval ProbROps (fun v b => denoteR aval (w v b)) C in
+    denoteR aval e = p /\ readR aval (tokens e) = Some p /\ print e = spell_all (tokens e).
+Proof. exact symbolic_evaluates_foldr. Qed.
+Print Assumptions C05_symbolic_evaluates_foldr.
+
+(* ... including `normalize` (conditional probabilities): "a / (z)" is read as the quotient of the two
+   probability-semiring evaluations (whatever circuits / weightings produced a and z; x/0 is Coq's
+   totalised division on both sides, the Python code raises ZeroDivisionError only when the string is
+   evaluated) *)
+Theorem C05_symbolic_normalize : forall (aval : string -> R), aval "0"%string = 0%R -> aval "1"%string = 1%R ->
+  forall (w wz : nat -> bool -> sx) C Cz,
+    let e := sx_normalize (c_eval_l SymOps w C) (c_eval_l SymOps wz Cz) in
+    let p := (c_eval ProbROps (fun v b => denoteR aval (w v b)) C /
+              c_eval ProbROps (fun v b => denoteR aval (wz v b)) Cz)%R in
+    denoteR aval e = p /\ readR aval (tokens e) = Some p /\ print e = spell_all (tokens e).
+Proof. exact symbolic_normalize. Qed.
+Print Assumptions C05_symbolic_normalize.
+
+(* ... and with the weights a probabilistic fact gets, value(q) and negate(value(q)) = "(1-q)":
+   denote (c_eval Sym (quote o w)) = c_eval Prob w *)
+Theorem C05_symbolic_facts : forall (aval : string -> R), aval "0"%string = 0%R -> aval "1"%string = 1%R ->
+  forall (q : nat -> string) C,
+    readR aval (tokens (c_eval_l SymOps (fact_weights q) C)) =
+    Some (c_eval ProbROps (fun v b => if b then aval (q v) else (1 - aval (q v))%R) C).
+Proof. exact symbolic_facts. Qed.
+Print Assumptions C05_symbolic_facts.
+
+(* The expression-level model IS the source: the definitions the C12 translator regenerates from
+   problog/evaluator.py on every run (class SemiringSymbolic) compute, on printed expressions, exactly
+   the print of the expression-level operations -- in particular Python's string comparisons with
+   "0"/"1" coincide with the model's comparisons with the atoms.  (Breaks when the class changes.) *)
+Theorem C05_symbolic_is_source : forall (N : NumOps) (a b : sx) (s : string),
+  sym_zero N = Ok (print sx_zero) /\ sym_one N = Ok (print sx_one) /\
+  sym_value N s = Ok (print (sx_value s)) /\
+  sym_plus N (print a) (print b) = Ok (print (sx_plus a b)) /\
+  sym_times N (print a) (print b) = Ok (print (sx_times a b)) /\
+  sym_negate N (print a) = Ok (print (sx_negate a)) /\
+  sym_normalize N (print a) (print b) = Ok (print (sx_normalize a b)).
+Proof. exact symbolic_is_source. Qed.
+Print Assumptions C05_symbolic_is_source.
+
 (* non-vacuity.  On a NON-smooth circuit (x1 \/ x2, x2 with neutral weights (1,1)) NSP evaluation and plain
    evaluation differ (2 vs 3/2), so the smoothness hypothesis of C05_nsp_smooth is doing work ... *)
 Definition ex_ns : circuit := [Atom 1; Atom 2; Disj [RPos 0; RPos 1]].
@@ -59,3 +143,52 @@ Example C05_nsp_agrees_when_smooth :
   c_eval_nsp QcOps (w_of ex_w) (var_list 2) ex_sm = mkq 3%Z 2%positive /\ c_eval QcOps (w_of ex_w) ex_sm = mkq 3%Z 2%positive /\
   wmc_cnf QcOps (w_of ex_w) 2 [[(1, true); (2, true)]] = mkq 3%Z 2%positive.
 Proof. split; [vm_compute; reflexivity|]. repeat split; apply Qcanon.Qc_is_canon; vm_compute; reflexivity. Qed.
+
+(* non-vacuity of C05_nsp_general: x1 \/ (-x1 /\ x2) is decomposable and deterministic but NOT smooth; with
+   x2 weighted (1,1) plain evaluation gives 1, the NSP evaluator 3/2 = the weighted model count of x1 \/ x2 *)
+Definition ex_dd : circuit := [Atom 1; Atom 2; Conj [RNeg 0; RPos 1]; Disj [RPos 0; RPos 2]].
+Example C05_nsp_general_example :
+  decomposable ex_dd /\ deterministic ex_dd /\ ~ smooth ex_dd /\
+  c_eval QcOps (w_of ex_w) ex_dd = mkq 1%Z 1%positive /\
+  c_eval_nsp QcOps (w_of ex_w) (var_list 2) ex_dd = mkq 3%Z 2%positive /\
+  wmc_cnf QcOps (w_of ex_w) 2 [[(1, true); (2, true)]] = mkq 3%Z 2%positive.
+Proof.
+  unfold decomposable, deterministic, smooth.
+  change (root_tree ex_dd) with (NOr [NLit 1 true; NAnd [NLit 1 false; NLit 2 true]]).
+  split; [|split; [|split]].
+  - constructor. repeat constructor. intros v [<-|[]] [E|[]]. discriminate.
+  - constructor; [repeat constructor|]. repeat constructor.
+    intros a H1 H2. unfold evalb in H1, H2. simpl in H1, H2. destruct (a 1); discriminate.
+  - intros H. inversion H as [| | | |? _ HS]; subst.
+    assert (E : In 2 (tvars (NLit 1 true))).
+    { apply (HS (NAnd [NLit 1 false; NLit 2 true]) (NLit 1 true)); simpl; auto. }
+    simpl in E. destruct E as [E|[]]. discriminate.
+  - repeat split; apply Qcanon.Qc_is_canon; vm_compute; reflexivity.
+Qed.
+
+(* non-vacuity of the symbolic theorems, run on Q: the smooth d-DNNF of x1 \/ x2 with annotations "0.5" and
+   "0.25" gives, with the evaluator's left folds, the string below; the reader turns its tokens into 5/8;
+   the conditional P(x1 | x1 \/ x2) is printed with the divisor parenthesised and read as 4/5 *)
+Local Open Scope string_scope.
+Definition ex_aval (s : string) : Q :=
+  if String.eqb s "1" then 1%Q else if String.eqb s "0.5" then (1#2)%Q else if String.eqb s "0.25" then (1#4)%Q else 0%Q.
+Definition ex_q (v : nat) : string := match v with 1 => "0.5" | _ => "0.25" end.
+Definition ex_sym : sx := c_eval_l SymOps (fact_weights ex_q) ex_sm.
+Definition ex_sym_ev : sx :=
+  c_eval_l SymOps (fun v b => if Nat.eqb v 1 then (if b then sx_value "0.5" else sx_zero) else fact_weights ex_q v b) ex_sm.
+Example C05_symbolic_example :
+  print ex_sym = "(0.5*(0.25 + (1-0.25)) + (1-0.5)*0.25)" /\
+  option_map Qred (readQ ex_aval (tokens ex_sym)) = Some (5#8)%Q /\
+  print (sx_normalize ex_sym_ev ex_sym) = "0.5*(0.25 + (1-0.25)) / ((0.5*(0.25 + (1-0.25)) + (1-0.5)*0.25))" /\
+  option_map Qred (readQ ex_aval (tokens (sx_normalize ex_sym_ev ex_sym))) = Some (4#5)%Q.
+Proof. vm_compute. repeat split. Qed.
+(* the reader respects precedence and associativity, and it does not guess: without the parentheses the
+   divisor "x*y" is NOT read as a unit (the defect repaired in SemiringSymbolic.normalize, 7576302) *)
+Example C05_reader_is_strict :
+  option_map Qred (readQ ex_aval [TAtom "1"; TPlus; TAtom "0.5"; TStar; TAtom "0.5"]) = Some (5#4)%Q /\
+  option_map Qred (readQ ex_aval [TAtom "1"; TMinus; TAtom "0.5"; TMinus; TAtom "0.25"]) = Some (1#4)%Q /\
+  option_map Qred (readQ ex_aval [TAtom "1"; TSlash; TAtom "0.5"; TStar; TAtom "0.5"]) = Some 1%Q /\
+  option_map Qred (readQ ex_aval [TAtom "1"; TSlash; TLP; TAtom "0.5"; TStar; TAtom "0.5"; TRP]) = Some 4%Q /\
+  readQ ex_aval [TAtom "1"; TPlus] = None /\ readQ ex_aval [TLP; TAtom "1"] = None /\
+  readQ ex_aval [TAtom "1"; TAtom "1"] = None.
+Proof. vm_compute. repeat split. Qed.
